@@ -175,7 +175,7 @@ def harnesses(tier):
     hs = []
     quick = tier == "quick"
     N = 3 if quick else 4
-    kinds = ["f", "i", "T", "b", "td"] if quick else ["f", "i", "T", "b", "D", "us", "U", "O", "td"]
+    kinds = ["f", "i", "T", "b", "td"] if quick else ["f", "i", "T", "b", "D", "us", "U", "O", "td", "ns"]
     for k in kinds:
         hs.append(Subset("unique", k, N))
         hs.append(Subset("drop_na", k, N))
